@@ -1686,6 +1686,60 @@ fn c14_checkpoint_into_opened_directory(dir: PathBuf) -> ScenFut<'static> {
     })
 }
 
+/// A range cursor opened before a restore is read to its end after it; the new timeline then
+/// writes a table that reuses the id of one the cursor read.
+fn c14_cursor_across_restore_refills_cache(dir: PathBuf) -> ScenFut<'static> {
+    Box::pin(async move {
+        let cfg = Cfg { cache: 1 << 20, max_memtable_size: 4 << 20, level_count: 3, l0_max_files: 8, max_bytes_for_level: 1 << 22, ..base_cfg() };
+        let t = cfg.open(&dir.join("src")).map_err(|e| e.to_string())?;
+        let ck = dir.join("ck");
+        put(&t, &[(b"a", b"1")]).await?;
+        t.create_checkpoint(&ck).map_err(|e| e.to_string())?;
+        let n = 120u32;
+        let write = |tag: &'static str| {
+            let t = &t;
+            async move {
+                for chunk in (1..=n).collect::<Vec<_>>().chunks(40) {
+                    let mut tx = t.begin_with_mode(Mode::WriteOnly).map_err(|e| e.to_string())?;
+                    for i in chunk {
+                        tx.set(format!("k{i:04}").as_bytes(), format!("{tag}-{i:04}-{}", "x".repeat(100)).as_bytes()).map_err(|e| e.to_string())?;
+                    }
+                    tx.commit().await.map_err(|e| e.to_string())?;
+                }
+                t.verif_flush().map_err(|e| e.to_string())
+            }
+        };
+        write("discarded").await?;
+        let old = t.begin_with_mode(Mode::ReadOnly).map_err(|e| e.to_string())?;
+        let mut cursor = old.range(&b"k"[..], &b"l"[..]).map_err(|e| e.to_string())?;
+        t.restore_from_checkpoint(&ck).map_err(|e| format!("restore: {e}"))?;
+        let drained = collect_fwd(&mut cursor).map(|v| v.len());
+        drop(cursor);
+        drop(old);
+        write("restored-").await?;
+        let tx = t.begin_with_mode(Mode::ReadOnly).map_err(|e| e.to_string())?;
+        let mut it = tx.range(&b"k"[..], &b"l"[..]).map_err(|e| e.to_string())?;
+        let mut wrong = 0;
+        let mut first = None;
+        let mut ok = it.seek_first().map_err(|e| e.to_string())?;
+        while ok {
+            let v = it.value().map_err(|e| e.to_string())?;
+            if !v.starts_with(b"restored-") {
+                wrong += 1;
+                first.get_or_insert(String::from_utf8_lossy(&v[..v.len().min(16)]).to_string());
+            }
+            ok = it.next().map_err(|e| e.to_string())?;
+        }
+        drop(it);
+        drop(tx);
+        close(t).await;
+        if wrong > 0 {
+            return Err(format!("checkpoint; 120 keys written as `discarded-…` and flushed; a range cursor is opened; restore; the cursor is read to its end afterwards ({:?} keys); the same keys written as `restored-…` and flushed (the table reuses the id of the discarded one); a scan in a new transaction returns a discarded value for {wrong} of 120 keys (first: {:?}) - blocks the old cursor read after the restore went into the cache under the reused table id", drained, first));
+        }
+        Ok(())
+    })
+}
+
 fn c14_version_index_not_restored(dir: PathBuf) -> ScenFut<'static> {
     Box::pin(async move {
         let cfg = ver_cfg(true);
@@ -3982,6 +4036,12 @@ pub fn all() -> Vec<Scenario> {
             property: "C14",
             title: "second checkpoint into a directory whose first checkpoint was opened as a database once",
             run: c14_checkpoint_into_opened_directory,
+        },
+        Scenario {
+            id: "C14-cursor-across-restore-refills-cache",
+            property: "C14",
+            title: "a cursor opened before a restore is drained after it, then the new timeline reuses the table id",
+            run: c14_cursor_across_restore_refills_cache,
         },
         Scenario {
             id: "C14-vlog-writer-after-restore",
